@@ -3,10 +3,13 @@ import Verif.Model.MptEnc
 import Verif.Model.MptCodec
 import Verif.Model.MptPartial
 import Verif.Model.DeadNodes
-/-! Model driver for the codec suites c14, c15mpt, c17 (op languages: go/harness/suite_c14.go, suite_c15mpt.go,
-    suite_c17.go).  `modeld codec`. -/
+import Verif.Model.MptStore
+import Verif.Model.MptCache
+/-! Model driver for the codec suites c14, c15mpt, c17, c01cache (op languages: go/harness/suite_c14.go,
+    suite_c15mpt.go, suite_c17.go, suite_c01cache.go).  `modeld codec`. -/
 namespace Driver.Codec
 open Verif.Mpt Verif.Codec Verif.Partial Driver
+open Verif.Cache (Cache getNodeC cacheInsertNode cacheDeleteNode lookupC iterC hasMissingC)
 
 structure St where
   t : Node := .empty
@@ -20,6 +23,10 @@ structure St where
   removed : List Bytes := []
   snapped : Bool := false                       -- c17: `snap` seen; before it `get` reads the trie itself (c14)
   touched : Option Nat := none                 -- c14: version written to every stored node by the last `touch`
+  hist : List (Nat × List Nib × Bytes) := []     -- c01cache: the ins / del history, newest first (del = empty value)
+  wc : Option Cache := none                     -- c01cache: node cache of the trie that ran the history (computed on demand)
+  fc : Cache := {}                              -- c01cache: node cache of the trie opened by the last `cwarm fresh`
+  selOrig : Bool := true                        -- c01cache: which of the two tries the c* ops go through
 
 def maxSize : Nat := 10 * 1024 * 1024
 
@@ -66,6 +73,32 @@ def sizesOf : Node → List Nat
   | .ext _ _ c =>
     let s := sizesOf c
     (s.length + 1) :: s
+
+/-! c01cache: the node cache of the writing trie, from the insertNode / deleteNode calls of each operation -/
+
+def evCache (c : Cache) : Verif.MptStore.Event → Cache
+  | .put old new =>
+    cacheInsertNode c (key sha3 new.t new.pos) (reprOf sha3 new.t new.pos) (old.map (fun o => key sha3 o.t o.pos))
+  | .del old => cacheDeleteNode c (key sha3 old.t old.pos)
+
+/-- cache of the writing trie after `Insert(p, b)` (an empty value is a delete, an over-size value is rejected) -/
+def wcAfterIns (c : Cache) (v : Nat) (t : Node) (p : List Nib) (b : Bytes) : Cache :=
+  if b = [] then
+    match Verif.MptStore.deleteE v t [] p with
+    | (.removed, es) => es.foldl evCache c
+    | (.node _, es) => es.foldl evCache c
+    | _ => c
+  else if b.length > maxSize then c
+  else (Verif.MptStore.insertE v b t [] p).2.foldl evCache c
+
+/-- replay the history (oldest first): the node cache of the trie that executed it -/
+def replayCache (hist : List (Nat × List Nib × Bytes)) : Cache :=
+  (hist.reverse.foldl (fun (a : Node × Cache) (e : Nat × List Nib × Bytes) =>
+    ((Trie.insert maxSize e.1 a.1 e.2.1 e.2.2).1, wcAfterIns a.2 e.1 a.1 e.2.1 e.2.2)) (Node.empty, ({} : Cache))).2
+
+def fmtCache (c : Cache) : String :=
+  let es := c.liveKeys.filterMap (fun k => (c.get k).map (fun r => (k, (sha3 (encode r)).take 8)))
+  fmtEntries es
 
 /-- c14 `store` / `save`: root and every stored node of the trie -/
 def storeLine (t : Node) (touched : Option Nat) : String :=
@@ -160,6 +193,11 @@ def digest (s : St) (idxs : List Nat) (v : Nat) : String :=
   idxList (idxs.mergeSort (fun a b => a ≤ b)) ++ ":" ++ boolStr (hasMissing pt) ++ ":" ++ idxList missIdx ++ ":"
     ++ (if cls.isEmpty then "-" else cls) ++ ":" ++ rep
 
+def selCache (s : St) : Cache :=
+  if s.selOrig then (match s.wc with | some c => c | none => replayCache s.hist) else s.fc
+
+def setSel (s : St) (c : Cache) : St := if s.selOrig then { s with wc := some c } else { s with fc := c }
+
 def subtreeIdx (s : St) (j : Nat) : List Nat :=
   match s.sizes[j]? with
   | some sz => (List.range sz).map (· + j)
@@ -173,13 +211,13 @@ def step (s : St) (w : List String) : St × String :=
     match parsePath p, unhex b with
     | some p, some b =>
       let (t', o) := Trie.insert maxSize s.v s.t p b
-      ({ s with t := t', used := pathBytes p :: s.used, touched := none }, outcome t' o)
+      ({ s with t := t', used := pathBytes p :: s.used, touched := none, hist := (s.v, p, b) :: s.hist }, outcome t' o)
     | _, _ => (s, "bad-op")
   | ["del", p] =>
     match parsePath p with
     | some p =>
       let (t', o) := Trie.delete s.v s.t p
-      ({ s with t := t', used := pathBytes p :: s.used, touched := none }, outcome t' o)
+      ({ s with t := t', used := pathBytes p :: s.used, touched := none, hist := (s.v, p, []) :: s.hist }, outcome t' o)
     | none => (s, "bad-op")
   | ["insstr", p, b] =>
     match parsePath p, unhex b with
@@ -270,6 +308,44 @@ def step (s : St) (w : List String) : St × String :=
       let mask := m + 1
       digest s ((List.range (n - 1)).filterMap (fun b => if mask.testBit b then some (b + 1) else none)) s.v)
     (s, "ok " ++ (if recs.isEmpty then "-" else ";".intercalate recs))
+  -- c01cache: queries through a trie that keeps its node cache (`orig`: the trie that ran the history; `fresh`: a
+  -- trie opened on the store now), over a store damaged / restored IN PLACE under that trie
+  | ["cwarm", "orig"] => ({ s with selOrig := true }, "ok")
+  | ["cwarm", "fresh"] => ({ s with selOrig := false, fc := {} }, "ok")
+  | ["cget", p] =>
+    match parsePath p with
+    | some p =>
+      let r := lookupC (selCache s) s.cur.get s.root (pathBytes p)
+      (setSel s r.1, lresStr r.2)
+    | none => (s, "bad-op")
+  | ["chas"] =>
+    let r := hasMissingC (fuelOf s) (selCache s) s.cur.get s.root
+    (setSel s r.1, boolStr r.2)
+  | ["citer"] =>
+    let r := iterC .nodeNotFound (fuelOf s) (selCache s) s.cur.get s.root
+    (setSel s r.1,
+      match r.2.1 with
+      | .none => "ok " ++ fmtPairs r.2.2
+      | .nodeNotFound => "nodenotfound"
+      | .missingNodes => "missingnodes"
+      | .iterChild => "iterchild")
+  | ["ckeys"] => (s, "ok " ++ fmtCache (selCache s))
+  | ["crm", l] =>
+    let idxs := (l.splitOn ",").filterMap (fun x => indexOf s x.toNat!)
+    let ks := keysAt s idxs
+    ({ s with cur := without s.cur ks }, "ok " ++ fmtKeys ks)
+  | ["crmsub", i] =>
+    let idxs := match indexOf s i.toNat! with
+      | some j => subtreeIdx s j
+      | none => []
+    let ks := keysAt s idxs
+    ({ s with cur := without s.cur ks }, "ok " ++ fmtKeys ks)
+  | ["crestore"] => ({ s with cur := s.full }, "ok")
+  | ["fget", p] =>
+    match parsePath p with
+    | some p => (s, lresStr (lookupC {} s.cur.get s.root (pathBytes p)).2)
+    | none => (s, "bad-op")
+  | ["fhas"] => (s, boolStr (hasMissingC (fuelOf s) {} s.cur.get s.root).2)
   | _ => (s, "bad-op")
 
 def main : IO Unit := loop ({} : St) step
